@@ -190,6 +190,24 @@ theorem C05_verified_stable (H : Bytes → Bytes) (fs : Fs) (a : ByteOp) (j L : 
   obtain ⟨parts, hm, hh⟩ := h
   exact ⟨parts, mapM_segBytesIn_stable fs a j L w.segs parts hL hm, hh⟩
 
+/-- R5, any number of operations: a piece that verifies still verifies after ANY SEQUENCE of byte operations of other
+    pieces (each `(a, j, L)`: operation `a` on inode `j`, an image of declared length `L`) that spare its segments —
+    whatever the order in which the other workers' `set_len`s and writes reach the file system. The hypothesis is
+    stated once, against the initial tree: byte operations do not change which inode a path leads to. -/
+theorem C05_verified_stable_ops (H : Bytes → Bytes) (w : Work) (ops : List (ByteOp × Nat × Nat)) (fs : Fs)
+    (hL : ∀ o ∈ ops, ∀ s ∈ w.segs, fs.look s.ent.fullTarget = .file o.2.1 →
+      s.off + s.len ≤ o.2.2 ∧ o.1.Spares o.2.2 s.off s.len)
+    (h : VerE H fs w) : VerE H (ops.foldl (fun f o => o.1.app f o.2.1) fs) w := by
+  induction ops generalizing fs with
+  | nil => exact h
+  | cons o rest ih =>
+    rw [List.foldl_cons]
+    apply ih
+    · intro o' ho' s hs hl
+      rw [ByteOp.look_app] at hl
+      exact hL o' (List.mem_cons_of_mem _ ho') s hs hl
+    · exact C05_verified_stable H fs o.1 o.2.1 o.2.2 w (hL o List.mem_cons_self) h
+
 /-! #### non-vacuity of R5: the image `d/x` holds `[7, 8]`; the piece on its first byte verifies (with `H = id`);
     the other piece's write of the second byte spares it -/
 namespace C05r
